@@ -2,6 +2,7 @@ package props
 
 import (
 	"math/rand"
+	"sort"
 	"strings"
 
 	"verif/harness/internal/gen"
@@ -197,4 +198,79 @@ func genNodeSpanProbe(r *rand.Rand, cu *cachedUni, idStyle, pool int) *gen.Op {
 		a, b = b, a
 	}
 	return &gen.Op{Query: "{ node(id: \"" + id + "\") { " + a + " " + b + " } }", Tags: []string{"probe:node-span"}}
+}
+
+// genAbstractHistoryProbe builds a pair (earlier, judged) of operations on a root field of interface type: the
+// earlier one selects only on the last member (fields from two services), the judged one only on the first member
+// (a field living at the answering service).  What planning the earlier request does to the gateway's shared view of
+// the interface (possible types, routes) must not change the judged answer.
+func genAbstractHistoryProbe(r *rand.Rand, cu *cachedUni) (earlier, judged *gen.Op) {
+	u := cu.u
+	noRequired := func(f *gen.Field) bool {
+		for _, a := range f.Args {
+			if strings.HasSuffix(a.Type, "!") && a.Default == "" {
+				return false
+			}
+		}
+		return true
+	}
+	leaves := func(t *gen.TypeDef, owner int, same bool) []*gen.Field {
+		var out []*gen.Field
+		for _, f := range t.Fields {
+			if f.Name == "id" || !noRequired(f) || (same && f.Owner != owner) || (!same && f.Owner == owner) {
+				continue
+			}
+			if tt := u.Type(gen.BaseName(f.Type)); tt != nil && tt.Kind != gen.KEnum && tt.Kind != gen.KScalar {
+				continue
+			}
+			out = append(out, f)
+		}
+		return out
+	}
+	type cand struct {
+		q           *gen.Field
+		first, last *gen.TypeDef
+		fl          *gen.Field   // local leaf of the first member
+		ll, lf      []*gen.Field // local / foreign leaves of the last member
+	}
+	var cands []cand
+	for _, q := range u.Query {
+		it := u.Type(gen.BaseName(q.Type))
+		if q.Name == "node" || !noRequired(q) || it == nil || it.Kind != gen.KInterface {
+			continue
+		}
+		var members []*gen.TypeDef
+		for _, t := range u.Types {
+			if t.Kind != gen.KEntity {
+				continue
+			}
+			for _, in := range t.Impl {
+				if in == it.Name {
+					members = append(members, t)
+				}
+			}
+		}
+		if len(members) < 2 {
+			continue
+		}
+		sort.Slice(members, func(i, j int) bool { return members[i].Name < members[j].Name })
+		first, last := members[0], members[len(members)-1]
+		fl := leaves(first, q.Owner, true)
+		lf := leaves(last, q.Owner, false)
+		if len(fl) == 0 || len(lf) == 0 {
+			continue
+		}
+		cands = append(cands, cand{q, first, last, fl[r.Intn(len(fl))], leaves(last, q.Owner, true), lf})
+	}
+	if len(cands) == 0 {
+		return nil, nil
+	}
+	c := cands[r.Intn(len(cands))]
+	sel := c.lf[r.Intn(len(c.lf))].Name
+	if len(c.ll) > 0 {
+		sel = c.ll[r.Intn(len(c.ll))].Name + " " + sel
+	}
+	earlier = &gen.Op{Query: "{ " + c.q.Name + " { ... on " + c.last.Name + " { " + sel + " } } }", Tags: []string{"probe:abstract-history-earlier"}}
+	judged = &gen.Op{Query: "{ " + c.q.Name + " { ... on " + c.first.Name + " { " + c.fl.Name + " } } }", Tags: []string{"probe:abstract-history"}}
+	return earlier, judged
 }
